@@ -92,6 +92,9 @@ def case_strategy():
             "nonce": st.binary(min_size=4, max_size=4),
             "marker_mode": st.sampled_from(["both", "marker_only", "size_only"]),
             "prepend": st.one_of(st.just(0), st.integers(0, 900)),
+            # a dword inside the prepended sled that looks like an e_lfanew (1..1023) for the sled's first offsets: a false
+            # PE candidate in front of the real image, pointing somewhere into - or past the end of - a small stage
+            "prepend_dword": st.one_of(st.none(), st.none(), st.integers(1, 1023), st.integers(500, 1023)),
             "stub_decoy": st.one_of(st.none(), st.none(), st.sampled_from([0x69, 0x2E, 0x00, 0xAF])),
             "tail": st.one_of(st.just(0), st.integers(0, 300)),
             "bufsize": st.sampled_from(BUFS),
@@ -196,7 +199,11 @@ def assemble(case):
             views = [("raw", data, False)]
             true_off = None
         else:
-            plainview = b"\x90" * case["prepend"] + img
+            sled = bytearray(b"\x90" * case["prepend"])
+            if case.get("prepend_dword") and len(sled) >= 64:
+                at = 60 + (case["prepend_dword"] * 7) % (len(sled) - 63)
+                sled[at : at + 4] = struct.pack("<I", case["prepend_dword"])
+            plainview = bytes(sled) + img
             stub = case["stub"].replace(b"\xff\xff\xff", b"\xff\xfe\xff")
             if case["stub_decoy"] is not None:
                 k = case["stub_decoy"]
@@ -375,6 +382,32 @@ def sweep_execute(case, stats):
     execute(full, stats)
 
 
+# ------------------------------------------------------------------------------------------ small XorEncoded stages
+def small_enumerate(tier, shard, nshards):
+    """Stages well below 1 KiB/2 KiB: a short prepend holding a false e_lfanew (pointing into or past the end of the
+    stage) in front of the real image, the block right at the start of .data, every entry point and marker mode."""
+    from ..runner import shard_iter
+
+    def gen():
+        for prepend in (0, 64, 100, 300):
+            for dword in (None, 1, 300, 700, 1023):
+                for key in (0x69, 0x2E, 0x00):
+                    for n, (mode, entry, arch) in enumerate([("both", "bytes", "x86"), ("marker_only", "file", "x64"), ("size_only", "path", "x86")]):
+                        yield {"prepend": prepend, "dword": dword, "key": key, "mode": mode, "entry": entry, "arch": arch}
+
+    return shard_iter(gen(), shard, nshards)
+
+
+def small_execute(case, stats):
+    blocks = [{"proto": 0, "settings": [(2, SHORT, b"\x01\xbb"), (37, INT, b"\x00\x00\x00\x07")], "key": case["key"], "pad": "none", "gap": 0}]
+    full = {
+        "blocks": blocks, "filler": "zeros", "seed": 7, "target": (0, 0), "container": "xorpe", "arch": case["arch"], "stub": b"\xfc" * 12,
+        "nonce": b"\x21\x43\x65\x87", "marker_mode": case["mode"], "prepend": case["prepend"], "prepend_dword": case["dword"], "stub_decoy": None,
+        "tail": 0, "bufsize": None, "keys": {"mode": "default", "list": []}, "entry": case["entry"],
+    }  # fmt: skip
+    execute(full, stats)
+
+
 # ------------------------------------------------------------------------------------------ real samples and large payloads
 def big_enumerate(tier, shard, nshards):
     from .. import samples
@@ -443,6 +476,7 @@ def big_execute(case, stats):
 
 
 SUBS = [
+    Sub("small_stages", small_execute, enumerate=small_enumerate, exhaustive=True),
     Sub("real_samples_and_large_payloads", big_execute, enumerate=big_enumerate, exhaustive=True),
     Sub("extract", execute, strategy=case_strategy, examples={"quick": 2400, "thorough": 48000}),
     Sub("boundary_sweep", sweep_execute, enumerate=sweep_enumerate, exhaustive=True),
